@@ -74,6 +74,17 @@ def run(chk, build, replay=None):
             srcs.append(gen_cf.program(b, pl))
         for _ in range(100 if chk.tier == "quick" else 1000):
             srcs.append(gen_assign.destructure_program(rng))
+        # f-strings: every conversion x format-spec shape x value shape (among them values whose text starts with a brace)
+        import ast as _a
+        from harness import gen_lit
+        lits = list(gen_lit.fstrings(1 if chk.tier == "quick" else 2))
+        for e in (lits if chk.tier == "thorough" else lits[::2]):
+            try:
+                text = _a.unparse(_a.fix_missing_locations(_a.Expression(body=e)))
+            except Exception:
+                continue
+            if "yield" not in text:
+                srcs.append(f"r = {text}\n")
     # the converter model is tied on the same inputs
     propkit.lower_correspondence(chk, [s for s in srcs if len(s) < 20000][:400 if chk.tier == "quick" else 4000],
                                  configs=[(False, False), (True, True)])
